@@ -48,6 +48,15 @@ Theorem C13_history_independent :
       compile_dict fuel var process c o d' = compile_dict fuel var process c o d.
 Proof. intros R fuel var process Hvar. exact (history_independent fuel var Hvar process). Qed.
 Print Assumptions C13_history_independent.
+(* OPEN: [SPformatEval] is the identity in the model, i.e. the theorem covers a
+   serialisation that keeps the key order of the dictionary (and deepcopy).
+   pprint.pformat sorts the keys, so after eval(pformat(d)) modules and types
+   are processed in key order; the full statement needs, in addition,
+     preprocess (sort_keys d) = sort_keys (preprocess d)   (up to the exception reported first),
+   which holds only with the repair C19-components-of-first and is not proved.
+   harness/c13.py tests it on every case: the model is evaluated on the
+   key-sorted dictionary too, and /repo runs the real pformat at any position
+   of the history. *)
 
 (** The upstream behaviour (numeric_enums=True writes the number of an
     ENUMERATED DEFAULT into the shared dictionary) refutes both statements. *)
